@@ -55,6 +55,73 @@ CLAIMS = {
   design='§8.18'),
 }
 
+CLAIMS.update({
+ 'C01': dict(category='proof',
+  text=('What "the sequence of edits implies" is made precise as a Coq specification (Spec/FsSpec.v: three namespaces as finite maps, '
+        'blobs, hard links, El Torito catalog names, hidden flags, reopening).  Proved (closed): every reachable specification state is a '
+        'well-formed file system (unique names, every entry inside an existing directory) for ALL edit histories, a refused edit changes '
+        'nothing, add_fp binds exactly the names given and nothing else.  The claim about pycdlib -- the written-and-reopened image shows '
+        'exactly the specification\'s view in every namespace, every file reads back its bytes, the image opens -- is decided by a '
+        'differential run on every check: generated histories over a pairwise-covering configuration set are executed on the library, '
+        'the final API view is compared with FsSpec.run evaluated INSIDE Coq (vm_compute), disagreements are shrunk and reported.'),
+  note=('Level: the theorems are about the specification; pycdlib is tied to it by sampling (histories x configurations), not by a proof '
+        'over a model of its object graph.  Trusted: Coq kernel + vm_compute, FsSpec.v as the reading of the property, harness generators/API view. '
+        'ISO9660 paths <= 6 deep (relocation: C08); Rock Ridge names in bijection with ISO names.'),
+  technique='Coq specification with invariant/frame theorems + differential run of pycdlib against the specification evaluated in Coq',
+  design='§8.1'),
+ 'C02': dict(category='proof',
+  text=('Same specification as C01 with an explicit Reopen step (write + open): proved frame theorems C02_rm_link_frame (rm_hard_link removes one '
+        'name of one namespace and nothing else) and C02_rm_file_exact (rm_file removes exactly the names bound to the addressed content), '
+        'well-formedness across any number of generations.  Tie: histories cut into 1-4 (thorough 1-8) generations at random points; every '
+        'generation edits the image the previous one wrote; the final API view is compared with the specification of the whole history '
+        'evaluated in Coq.'),
+  note=('Reopen semantics in the specification: zero-length contents lose cross-namespace link identity on disc (stated in FsSpec.Reopen). '
+        'No foreign-image corpus exists offline: only images pycdlib wrote are edited.  Trusted as for C01.'),
+  technique='Coq specification with frame theorems + multi-generation differential run against the specification evaluated in Coq',
+  design='§8.2'),
+ 'C03': dict(category='proof',
+  text=('Proved for all inputs (closed): records packed by the model of DirectoryRecord._recalculate_extents_and_offsets never cross a block '
+        'boundary nor overlap (C03_records_inside_blocks); the writer loop of _write_directory_records puts every record exactly at its cached '
+        'place (C03_written_where_cached; false with >= instead of >: C03_writer_test_is_decisive); restarting the recomputation at an index is '
+        'sound; after ANY sequence of insertions/removals a directory length is a whole number of blocks covering its records '
+        '(C03_dir_length_inv, via insert_le1 / remove_le0); path-table extents = 2*ceil(size/4096) after any add/remove sequence and the removal '
+        'path never raises (C03_ptr_extents_inv, on the TRANSLATED add_to_ptr_size/remove_from_ptr_size/ceiling_div).  Tie: Pack.v vs the real '
+        'method on an exhaustive small-block grid + insert/remove edits + positions decoded from real images (judged in Coq).  The property itself: '
+        'every generated image (random histories + boundary recipes: block filled exactly, path table crossing 4 KiB with duplicate PVDs, ...) is '
+        'decoded by an independent reader checking every listed ECMA-119 rule and compared with the API tree and contents of both the writing and a reopened object.'),
+  note=('Trusted: Coq kernel + vm_compute; translator; hand model Pack.v tied by leaf runs; harness/reader.py (independent, stdlib only). '
+        'Descriptor-set/both-endian/sort-order/dot-dotdot rules are decided by the reader on sampled images, not by a theorem.  Equal names are '
+        'accepted in any version order.'),
+  technique='Coq proofs over packing model and translated path-table accounting + independent-reader oracle on generated images',
+  design='§8.3'),
+ 'C04': dict(category='proof',
+  text=('Proved for all inputs (closed): a bump allocation (the discipline of _reshuffle_extents: current extent, advance by size) places every two '
+        'objects disjointly and inside [start, start+sum) whatever the traversal order (C04_bump_disjoint/_inside); the sizes suffice: translated '
+        'ceiling_div covers the bytes, a directory\'s blocks cover its records, the path-table reservation covers the table; the Rock Ridge '
+        'continuation allocator (model of RockRidgeContinuationBlock.add_entry/remove_entry/track_entry and add_rr_ce_entry) keeps entries pairwise '
+        'disjoint and inside the block for EVERY add/remove history (C04_ce_blocks_inv) and the off-by-one gap variant is refuted.  Tie: allocator and '
+        'packing models vs the real objects on exhaustive small-block sequences.  The property itself on every generated image: objects decoded by '
+        'the independent reader pairwise disjoint and inside the declared size, image length exact, write log of the mastering run free of double '
+        'writes (except the boot-info patch), data extents shared iff linked.'),
+  note=('The incremental space_size accounting of every edit is NOT modelled in Coq; under-/over-declaration is decided on the sampled images '
+        '(length, bounds, overlaps, failed writes).  Over-declaration (a continuation block that is no longer used keeps its sector) is not a violation. '
+        'Trusted: Coq kernel, translator, hand models tied by leaf runs, reader segment map, recording sink.'),
+  technique='Coq proofs (bump allocation, CE allocator invariant, translated size functions) + reader/write-log oracle on generated images',
+  design='§8.4'),
+ 'C06': dict(category='proof',
+  text=('Theorem C06_bytes_depend_only_on_edits (closed): in the state machine of PyCdlib\'s deferred recomputation (Model/Lazy.v), for ANY object '
+        'graph, mutation, recomputation and mastering functions, any two schedules (lazy / always-consistent, force_consistency, record queries, '
+        'walks and extra writes interleaved anywhere) with the same edits produce the same image, and every intermediate write is the from-scratch '
+        'image of the edits so far -- under the single hypothesis that an accepted edit either flags the metadata stale or does not influence it; '
+        'C06_flag_hypothesis_necessary refutes the claim without it.  Tie: that hypothesis is validated against PyCdlib._needs_reshuffle after EVERY call '
+        'of generated schedules (flag trace computed by the model in Coq).  The property itself: every history mastered under 4 (thorough 12) '
+        'schedules, byte comparison; record queries after force_consistency compared with extents decoded from the image written next.'),
+  note=('_reshuffle_extents is treated as a function of the object graph (its purity/idempotence is exercised by the k-schedule byte comparison, not proved). '
+        'Trusted: Coq kernel + vm_compute, Lazy.v tied by the flag-trace run, harness/reader.py.'),
+  technique='Coq proof of schedule independence over the lazy-recomputation state machine + flag-trace correspondence + k-schedule byte comparison',
+  design='§8.6'),
+})
+
 NA_REASON = 'check not built yet (work in progress; see DESIGN.md section 8)'
 
 
